@@ -39,8 +39,12 @@ def run():
                              env={"VERIF_DEVS": _devs()},
                              # a call that did not return within the workers' limit is re-executed with three times
                              # the limit before it is reported: the machine may be busy, the verdict must not be
-                             replay_env={"ZV_HUNG_S": "60"},
-                             noise=lambda c: any(o and o[0] == "hung" for o in c["outs"]))
+                             # likewise a process that ended at the workers' LOWERED stack bound is re-executed with Go's
+                             # own bound (1 GB for the deep texts): an evaluation that nests as deep as its text is long
+                             # (a line of prefix operators at the REPL) needs a few hundred MB and returns
+                             replay_env={"ZV_HUNG_S": "60", "ZV_MAXSTACK_MB": "2000"},
+                             noise=lambda c: any(o and (o[0] == "hung" or (o[0] == "died" and "stack" in json.dumps(o)))
+                                                 for o in c["outs"]))
     by = collections.Counter((c["src"], c["cfg"], c["entry"]) for c in cases.values())
     outs = collections.Counter(o[0] for c in cases.values() for o in c["outs"])
     texts = set(t for c in cases.values() for t in c["texts"])
@@ -83,7 +87,8 @@ def replay(path):
     rp = os.path.join(vlib.scratch(), "r.ndjson")
     open(rp, "w").write(json.dumps(rec["case"]) + "\n")
     fresh = os.path.join(vlib.scratch(), "fresh.ndjson")
-    vlib.run_zv1(zv, "crash", ["-replay", rp], out=fresh)
+    # as in the confirming re-execution of run(): three times the workers' time limit, Go's own stack bound
+    vlib.run_zv1(zv, "crash", ["-replay", rp], out=fresh, env={"ZV_HUNG_S": "60", "ZV_MAXSTACK_MB": "2000"}, timeout=1500)
     v, _ = vlib.validate_trace("CrashTrace.tla", "CrashTrace.cfg", fresh, env={"VERIF_DEVS": _devs()})
     bad = [i for i in v if v[i][0] == "bad"]
     for i in bad:
